@@ -3,13 +3,17 @@ package c11
 
 import (
 	"fmt"
+	"io"
 	"os"
+	"sort"
 	"testing"
 	"time"
 
+	"github.com/biogo/biogo/morass"
 	"pgregory.net/rapid"
 
 	mx "verif/internal/morassx"
+	"verif/internal/morassx/twin"
 	"verif/internal/vlib"
 )
 
@@ -163,4 +167,132 @@ func TestSequential(t *testing.T) {
 
 func TestConcurrentFree(t *testing.T) {
 	vlib.Run(t, vlib.Prop[mx.History]{Name: "concurrent-mode-free-schedule", Checks: 1000, Thorough: 80000, Gen: genHistory(true), Check: check, Classes: classes, MinFrac: minFrac})
+}
+
+// twinCase: sorters over element types of different packages that share their unqualified names, used in one
+// program (the usage histories above run in the same process, before or after).
+type twinCase struct {
+	Chunk int   `json:"chunk"`
+	A     []int `json:"a"` // pushed as morassx.IntT (increasing order)
+	B     []int `json:"b"` // pushed as twin.IntT (decreasing order)
+	C     []int `json:"c"` // pushed as twin.RecT
+	Order int   `json:"order"`
+}
+
+func genTwin(t *rapid.T) twinCase {
+	c := twinCase{Chunk: rapid.IntRange(1, 6).Draw(t, "chunk"), Order: rapid.IntRange(0, 5).Draw(t, "order")}
+	keys := func(label string) []int {
+		n := genCount(t, c.Chunk)
+		var l []int
+		for i := 0; i < n; i++ {
+			l = append(l, rapid.IntRange(-6, 6).Draw(t, label))
+		}
+		return l
+	}
+	c.A, c.B, c.C = keys("a"), keys("b"), keys("c")
+	return c
+}
+
+func sortTwin(which string, chunk int, keys []int) *vlib.Failure {
+	parent, err := os.MkdirTemp("", "vtwin")
+	if err != nil {
+		return vlib.Failf("setup", "%v", err)
+	}
+	defer os.RemoveAll(parent)
+	var e interface{}
+	switch which {
+	case "morassx.IntT":
+		e = mx.IntT(0)
+	case "twin.IntT":
+		e = twin.IntT(0)
+	default:
+		e = twin.RecT{}
+	}
+	m, err := morass.New(e, "run", parent, chunk, false)
+	if err != nil {
+		return vlib.Failf("setup", "%v", err)
+	}
+	defer m.CleanUp()
+	for i, k := range keys {
+		switch which {
+		case "morassx.IntT":
+			err = m.Push(mx.IntT(k))
+		case "twin.IntT":
+			err = m.Push(twin.IntT(k))
+		default:
+			err = m.Push(twin.RecT{Key: k, Note: fmt.Sprint("n", i%3)})
+		}
+		if err != nil {
+			return vlib.Failf("twin-error", "%s (chunk %d, %d values): Push %d: %v", which, chunk, len(keys), i, err)
+		}
+	}
+	if err := m.Finalise(); err != nil {
+		return vlib.Failf("twin-error", "%s (chunk %d, %d values): Finalise: %v", which, chunk, len(keys), err)
+	}
+	want := append([]int(nil), keys...)
+	sort.Ints(want)
+	if which == "twin.IntT" {
+		sort.Sort(sort.Reverse(sort.IntSlice(want)))
+	}
+	var got []int
+	for {
+		var k int
+		switch which {
+		case "morassx.IntT":
+			var v mx.IntT
+			err = m.Pull(&v)
+			k = int(v)
+		case "twin.IntT":
+			var v twin.IntT
+			err = m.Pull(&v)
+			k = int(v)
+		default:
+			var v twin.RecT
+			err = m.Pull(&v)
+			k = v.Key
+		}
+		if err == io.EOF {
+			break
+		}
+		if err != nil {
+			return vlib.Failf("twin-error", "%s (chunk %d, %d values): Pull %d: %v", which, chunk, len(keys), len(got), err)
+		}
+		got = append(got, k)
+		if len(got) > len(keys) {
+			break
+		}
+	}
+	if fmt.Sprint(got) != fmt.Sprint(want) {
+		return vlib.Failf("twin-values", "%s (chunk %d): pulled %v, want %v", which, chunk, got, want)
+	}
+	return nil
+}
+
+func checkTwin(c twinCase) *vlib.Failure {
+	orders := [][3]int{{0, 1, 2}, {0, 2, 1}, {1, 0, 2}, {1, 2, 0}, {2, 0, 1}, {2, 1, 0}}
+	names := []string{"morassx.IntT", "twin.IntT", "twin.RecT"}
+	keys := [][]int{c.A, c.B, c.C}
+	for _, i := range orders[c.Order%6] {
+		if f := sortTwin(names[i], c.Chunk, keys[i]); f != nil {
+			return f
+		}
+	}
+	return nil
+}
+
+func TestTwinTypes(t *testing.T) {
+	vlib.Run(t, vlib.Prop[twinCase]{Name: "element-types-with-the-same-name", Checks: 200, Thorough: 8000, Gen: genTwin, Check: checkTwin,
+		Classes: func(c twinCase) []string {
+			var l []string
+			n := 0
+			for _, k := range [][]int{c.A, c.B, c.C} {
+				if len(k) >= c.Chunk {
+					n++
+				}
+			}
+			if n >= 2 {
+				l = append(l, "two-types-spill", vlib.NT)
+			}
+			return l
+		}, MinFrac: map[string]float64{"two-types-spill": 0.3}})
 }
